@@ -9,7 +9,18 @@ import z3
 from . import sorts
 from .sorts import TBool, TInt, TList, TNone, TOpt, TReal, TSet, TStr, Ty
 
-_counter = itertools.count()
+class _Counter:
+    """fresh-name counter whose current value can be read (used to recognise symbols created inside a sub-evaluation)"""
+
+    def __init__(self):
+        self.n = 0
+
+    def __next__(self):
+        self.n += 1
+        return self.n
+
+
+_counter = _Counter()
 
 
 class SV:
